@@ -384,10 +384,30 @@ def _exchange_code_for_token(
 # ---------------------------------------------------------------------------
 
 
+# Browsers parse URLs per the WHATWG URL standard, ``urllib.parse`` per RFC 3986.
+# The two disagree on exactly these characters: for http(s) a backslash is a path
+# separator to a browser (``http://evil\\@localhost/`` goes to ``evil``, and
+# ``/\\evil/`` is a network-path reference) but an ordinary character to urllib, and
+# ASCII control characters / whitespace are stripped or removed by browsers.  No
+# legitimate redirect target contains them unencoded, so refuse them outright
+# instead of trying to guess what the browser will make of them.
+_URL_UNSAFE_CHARS = "\\\x7f" + "".join(map(chr, range(0x21)))
+
+
+def _has_unsafe_url_chars(url: str) -> bool:
+    """Return True if *url* contains a backslash, ASCII control character or whitespace."""
+    return any(c in _URL_UNSAFE_CHARS for c in url)
+
+
 def _validate_original_url(url: str, prefix: str) -> str:
     """Validate the original URL is relative and within the expected prefix."""
     if len(url) > _MAX_ORIGINAL_URL_LEN:
         url = url[:_MAX_ORIGINAL_URL_LEN]
+    if _has_unsafe_url_chars(url) or url.startswith("//"):
+        # "//host/…" is a network-path reference.  urllib reads "///host/…" as an
+        # empty authority plus a path, but browsers skip any run of slashes after
+        # the first two and still take "host" as the authority.
+        return prefix or "/"
     parsed = urlparse(url)
     if parsed.scheme or parsed.netloc:
         # Not a relative URL — fall back to the prefix root
@@ -406,16 +426,25 @@ def _is_localhost(hostname: str) -> bool:
 _DEFAULT_ALLOWED_RETURN_ORIGINS: frozenset[str] = frozenset(("https://cupola.query-farm.services",))
 
 
+_DEFAULT_PORTS = {"http": 80, "https": 443}
+
+
 def _validate_return_to(url: str, allowed_origins: frozenset[str] = frozenset()) -> str:
     """Validate an external return-to URL against an origin allowlist.
 
-    Returns the URL if it matches an allowed origin or is localhost,
-    otherwise returns empty string.  Only the scheme and host (ignoring
-    port for localhost) are checked — any path is permitted.
+    Returns the URL if its origin (scheme, host **and port**) is in
+    *allowed_origins*, or if it is ``http://`` on localhost (any port);
+    otherwise returns empty string.  Any path is permitted.  URLs containing
+    characters that browsers and ``urllib.parse`` read differently
+    (backslash, control characters, whitespace) are refused.
     """
-    if not url or len(url) > 2048:
+    if not url or len(url) > 2048 or _has_unsafe_url_chars(url):
         return ""
-    parsed = urlparse(url)
+    try:
+        parsed = urlparse(url)
+        port = parsed.port
+    except ValueError:
+        return ""
     if parsed.scheme not in ("http", "https"):
         return ""
     if not parsed.netloc:
@@ -424,15 +453,16 @@ def _validate_return_to(url: str, allowed_origins: frozenset[str] = frozenset())
     hostname = parsed.hostname or ""
     if _is_localhost(hostname) and parsed.scheme == "http":
         return url
-    # Check against allowlist (scheme + host, ignoring path)
-    origin = f"{parsed.scheme}://{parsed.hostname}"
-    if origin in allowed_origins:
+    # Compare origins: a different port on an allowlisted host is a different origin.
+    # The scheme's default port may be spelled out on either side.
+    default_port = _DEFAULT_PORTS[parsed.scheme]
+    candidates: tuple[str, ...]
+    if port is None or port == default_port:
+        candidates = (f"{parsed.scheme}://{hostname}", f"{parsed.scheme}://{hostname}:{default_port}")
+    else:
+        candidates = (f"{parsed.scheme}://{hostname}:{port}",)
+    if any(origin in allowed_origins for origin in candidates):
         return url
-    # Also try with explicit port
-    if parsed.port:
-        origin_with_port = f"{parsed.scheme}://{parsed.hostname}:{parsed.port}"
-        if origin_with_port in allowed_origins:
-            return url
     return ""
 
 
